@@ -24,6 +24,7 @@ import (
 // exact request sequence at the publisher must match it.
 
 type c01Cfg struct {
+	lm         *c01Latest
 	nAds       int
 	entPer     []int
 	discovery  bool
@@ -180,14 +181,17 @@ func runC01(r *simkit.Run, c Cfg) {
 	if cfg.retry {
 		sopts = append(sopts, dagsync.RetryableHTTPClient(2, time.Millisecond, 20*time.Millisecond))
 	}
-	lastKnown := -1
-	if n > 0 && tp.Chance(1, 4, "lastKnown?") {
-		// the application remembers an advertisement it has seen before
-		lastKnown = tp.Choose(n, "lastKnown")
-		lk := pub.Ads[lastKnown]
+	// the application may remember an advertisement it has seen before and
+	// tell the subscriber through a function; what it answers changes over
+	// time (nothing known yet / "known: none" / a CID)
+	lm := &c01Latest{}
+	cfg.lm = lm
+	if n > 0 && tp.Chance(1, 3, "lastKnown?") {
+		lm.has = true
+		lm.draw(tp, pub)
 		sopts = append(sopts, dagsync.WithLastKnownSync(func(p peer.ID) (cid.Cid, bool) {
 			if p == pub.Ident.ID {
-				return lk, true
+				return lm.lkCid, lm.lkOK
 			}
 			return cid.Undef, false
 		}))
@@ -239,7 +243,12 @@ func runC01(r *simkit.Run, c Cfg) {
 			if len(pub.Ads) > 0 && tp.Chance(1, 6, "setlatest") {
 				i := tp.Choose(len(pub.Ads), "setlatest.i")
 				sub.Sub.SetLatestSync(pub.Ident.ID, pub.Ads[i])
+				lm.cur = pub.Ads[i]
 				t.Logf("SetLatestSync(%s)", w.CidName(pub.Ads[i]))
+			}
+			if lm.has && tp.Chance(1, 3, "lastKnown.change") {
+				lm.draw(tp, pub)
+				t.Logf("the application's last-known-sync answer is now (%s, %v)", w.CidName(lm.lkCid), lm.lkOK)
 			}
 			kind := tp.Choose(10, "callkind")
 			switch {
@@ -266,6 +275,34 @@ func runC01(r *simkit.Run, c Cfg) {
 	w.Shutdown(sub, lst)
 }
 
+// c01Latest is the harness's own account of latest-sync and of what the
+// application's last-known-sync function answers at the moment.
+type c01Latest struct {
+	cur   cid.Cid
+	has   bool
+	lkCid cid.Cid
+	lkOK  bool
+}
+
+// observe: latest-sync is being asked for now; if nothing is recorded and
+// the application's function names a CID, that CID is recorded.
+func (m *c01Latest) observe() {
+	if !m.cur.Defined() && m.has && m.lkOK && m.lkCid.Defined() {
+		m.cur = m.lkCid
+	}
+}
+
+func (m *c01Latest) draw(tp *simkit.Tape, pub *PubNode) {
+	switch tp.Choose(3, "lastKnown.state") {
+	case 0:
+		m.lkCid, m.lkOK = cid.Undef, false
+	case 1:
+		m.lkCid, m.lkOK = cid.Undef, true
+	default:
+		m.lkCid, m.lkOK = pub.Ads[tp.Choose(len(pub.Ads), "lastKnown.i")], true
+	}
+}
+
 func c01AdCall(t *simkit.Task, w *World, pub *PubNode, sub *SubNode, lst *listener, cfg c01Cfg, offChain cid.Cid) {
 	r, tp := w.R, w.R.Tape
 	n := len(pub.Ads)
@@ -280,6 +317,16 @@ func c01AdCall(t *simkit.Task, w *World, pub *PubNode, sub *SubNode, lst *listen
 		desc = append(desc, "head="+w.CidName(pub.Ads[headIdx]))
 	}
 	latest := sub.Latest(pub)
+	// what latest-sync must be by an independent account: the last value
+	// recorded (sync, SetLatestSync), else what the application's function
+	// answers now if it names a CID (which is then recorded)
+	if cfg.lm != nil {
+		cfg.lm.observe()
+		if latest != cfg.lm.cur {
+			r.Violate("c01.latest", "GetLatestSync says %s; recorded so far: %s (last-known-sync function answers (%s, %v))", w.CidName(latest), w.CidName(cfg.lm.cur), w.CidName(cfg.lm.lkCid), cfg.lm.lkOK)
+			return
+		}
+	}
 	stop := latest
 	resync := tp.Chance(1, 5, "resync")
 	if resync {
@@ -397,6 +444,9 @@ func c01AdCall(t *simkit.Task, w *World, pub *PubNode, sub *SubNode, lst *listen
 	if l := sub.Latest(pub); l != wantLatest {
 		r.Violate("c01.latest", "latest-sync is %s, want %s", w.CidName(l), w.CidName(wantLatest))
 	}
+	if cfg.lm != nil {
+		cfg.lm.cur = wantLatest
+	}
 	// The event travels through the distributor goroutine; it has been sent
 	// before SyncAdChain returned, so it is queued or in flight. Collect it
 	// at the next yield (checked there).
@@ -452,6 +502,9 @@ func c01EntriesCall(t *simkit.Task, w *World, pub *PubNode, sub *SubNode, cfg c0
 	hook0 := len(sub.Hooks())
 	req0 := len(w.Net.Requests())
 	latest0 := sub.Latest(pub)
+	if cfg.lm != nil {
+		cfg.lm.observe()
+	}
 	var err error
 	var want []cid.Cid
 	if one {
